@@ -1,7 +1,11 @@
-"""Python re-implementation of coq/Model/Exec.v (`exec`) and of Sched.mon_step.
+"""Python re-implementation of coq/Model/Exec.v (check / apply / exec) and of Sched.mon_step.
 
 It is support for finding failing inputs on the implementation and is itself cross-checked against the extracted
-Coq monitor on every compared stream (the MON line).  It is never the claim."""
+Coq monitor on every compared stream (the MON line).  It is never the claim.
+
+Strict mode = Exec.v: the first failing requirement is the error and the state is left unchanged.
+Lenient mode (oracle search only): every failing requirement is recorded and execution continues with `apply`,
+so that a violation of one property does not hide a later violation of another."""
 
 ERR_PROPERTY = {
     "E_fwd_start": "C01", "E_missing_cp": "C01", "E_cp_not_covering": "C01", "E_rev_no_deps": "C01", "E_overwrite": "C01",
@@ -14,16 +18,12 @@ ERR_PROPERTY = {
 }
 
 
-class XErr(Exception):
-    pass
-
-
 def covers(o, a, b):
     return o is not None and o[0] <= a and b <= o[1]
 
 
 class Monitor:
-    def __init__(self, N, keep, bram, bdisk):
+    def __init__(self, N, keep, bram, bdisk, lenient=False):
         self.N = N
         self.keep = keep
         self.budget = {"RAM": bram, "DISK": bdisk}
@@ -41,128 +41,123 @@ class Monitor:
         self.disk_reads = 0
         self.err = None
         self.count = 0
+        self.lenient = lenient
+        self.errors = []          # lenient mode: all (error, action index)
 
-    # -- put: store a checkpoint / set WORK
-    def _put(self, sg, k, cp, fw, wi, wd, adv):
-        if sg in ("RAM", "DISK"):
-            if k in self.store[sg]:
-                raise XErr("E_overwrite")
-            b = self.budget[sg]
-            if b is not None and b < len(self.store[sg]) + 1:
-                raise XErr("E_budget_" + sg)
-            self.store[sg][k] = cp
-            self.peak[sg] = max(self.peak[sg], len(self.store[sg]))
-            if sg == "DISK":
-                self.disk_writes += 1
-        self.fwd, self.w_ics, self.w_deps = fw, wi, wd
-        self.fwd_total += adv
+    # ---- requirements, in the order of Exec.check ----
+    def _can_put(self, sg, k, store=None):
+        if sg not in ("RAM", "DISK"):
+            return []
+        st = self.store[sg] if store is None else store
+        b = self.budget[sg]
+        return [(k not in st, "E_overwrite"), (b is None or len(st) + 1 <= b, "E_budget_" + sg)]
 
-    def _exec(self, a, known, exhausted):
+    def _check(self, a, known, exhausted):
         N = self.N
         k = a[0]
         if k == "F":
             _, n0, n1, wi, wa, sg = a
-            if not (0 <= n0 < n1):
-                raise XErr("E_malformed")
-            if (sg in ("RAM", "DISK") and not (wi or wa)) or (sg == "NONE" and (wi or wa)):
-                raise XErr("E_malformed")
-            if self.fwd is None or self.fwd != n0:
-                raise XErr("E_fwd_start")
-            if known and not (n1 <= N - self.rr):
-                raise XErr("E_overshoot")
             n1p = min(n1, N)
-            if n1p <= n0:
-                raise XErr("E_overshoot")
-            if sg in ("RAM", "DISK"):
-                if wi and wa:
-                    raise XErr("E_mixed_content")
-                if wa and n1p != n0 + 1:
-                    raise XErr("E_mixed_content")
-                self._put(sg, n0, ((n0, n1p) if wi else None, (n0, n1p) if wa else None), n1p, None, None, n1p - n0)
-            elif sg == "WORK":
-                if wa and not self.keep and not (n1p == n0 + 1 and n1p == N - self.rr):
-                    raise XErr("E_deps_not_last_step")
-                self._put("WORK", n0, None, n1p, (n0, n1p) if wi else None, (n0, n1p) if wa else None, n1p - n0)
+            cp = sg in ("RAM", "DISK")
+            return [(0 <= n0 < n1, "E_malformed"),
+                    (not ((cp and not (wi or wa)) or (sg == "NONE" and (wi or wa))), "E_malformed"),
+                    (self.fwd is not None and self.fwd == n0, "E_fwd_start"),
+                    ((not known) or n1 <= N - self.rr, "E_overshoot"),
+                    (n0 < n1p, "E_overshoot"),
+                    (not (cp and wi and wa), "E_mixed_content"),
+                    (not (cp and wa and n1p != n0 + 1), "E_mixed_content"),
+                    (not (sg == "WORK" and wa and not self.keep and not (n1p == n0 + 1 and n1p == N - self.rr)), "E_deps_not_last_step"),
+                    ] + self._can_put(sg, n0)
+        if k == "R":
+            _, n1, n0, clear = a
+            return [(0 <= n0 < n1, "E_malformed"), (self.seen_endfwd, "E_before_endfwd"), (n1 == N - self.rr, "E_rev_order"),
+                    (covers(self.w_deps, n0, n1), "E_rev_no_deps")]
+        if k in ("C", "M"):
+            _, n, src, dst = a
+            st = self.store.get(src, {})
+            reqs = [(src in ("RAM", "DISK") and 0 <= n, "E_malformed"), (self.seen_endfwd, "E_before_endfwd"),
+                    (self.w_ics is None and self.w_deps is None, "E_load_work_nonempty"),
+                    (n in st, "E_missing_cp"), (n < N - self.rr, "E_cp_not_covering")]
+            if n in st:
+                ics, deps = st[n]
+                if dst == "WORK":
+                    restart = ics is not None and ics[0] <= n < ics[1]
+                    reqs += [((not restart) or covers(ics, n, N - self.rr), "E_cp_not_covering"),
+                             (self.keep or (0 if deps is None else deps[1] - deps[0]) <= 1, "E_deps_many")]
+                elif dst in ("RAM", "DISK"):
+                    tgt = dict(self.store[dst])
+                    if k == "M" and src == dst:
+                        tgt.pop(n, None)
+                    reqs += self._can_put(dst, n, tgt)
+            return reqs
+        if k == "EF":
+            return [(not self.seen_endfwd, "E_end_fwd_early"), (self.fwd is not None and self.fwd == N, "E_end_fwd_early")]
+        if k == "ER":
+            if exhausted:
+                clean = not self.store["RAM"] and not self.store["DISK"]
             else:
-                self._put("NONE", n0, None, n1p, None, None, n1p - n0)
+                clean = sorted(self.store["RAM"]) == self.keys0["RAM"] and sorted(self.store["DISK"]) == self.keys0["DISK"]
+            return [(self.seen_endfwd, "E_before_endfwd"), (self.rr == N, "E_end_rev_early"), (clean, "E_leftover")]
+        return [(False, "E_malformed")]
+
+    def _put(self, sg, k, cp):
+        if sg in ("RAM", "DISK"):
+            self.store[sg][k] = cp
+            self.peak[sg] = max(self.peak[sg], len(self.store[sg]))
+            if sg == "DISK":
+                self.disk_writes += 1
+
+    def _apply(self, a, exhausted):
+        N = self.N
+        k = a[0]
+        if k == "F":
+            _, n0, n1, wi, wa, sg = a
+            n1p = min(n1, N)
+            work = sg == "WORK"
+            self.fwd = n1p
+            self.w_ics = (n0, n1p) if (work and wi) else None
+            self.w_deps = (n0, n1p) if (work and wa) else None
+            self._put(sg, n0, ((n0, n1p) if wi else None, (n0, n1p) if wa else None))
+            self.fwd_total += n1p - n0
         elif k == "R":
             _, n1, n0, clear = a
-            if not (0 <= n0 < n1):
-                raise XErr("E_malformed")
-            if not self.seen_endfwd:
-                raise XErr("E_before_endfwd")
-            if n1 != N - self.rr:
-                raise XErr("E_rev_order")
-            if not covers(self.w_deps, n0, n1):
-                raise XErr("E_rev_no_deps")
+            self.rr += n1 - n0
             if clear:
                 self.w_deps = None
-            self.rr += n1 - n0
         elif k in ("C", "M"):
             _, n, src, dst = a
-            if src not in ("RAM", "DISK") or not (0 <= n):
-                raise XErr("E_malformed")
-            if not self.seen_endfwd:
-                raise XErr("E_before_endfwd")
-            if self.w_ics is not None or self.w_deps is not None:
-                raise XErr("E_load_work_nonempty")
-            if n not in self.store[src]:
-                raise XErr("E_missing_cp")
-            cp = self.store[src][n]
-            if not (n < N - self.rr):
-                raise XErr("E_cp_not_covering")
-            # checks on the destination come before the state change
-            if dst == "WORK":
-                ics, deps = cp
-                restart = ics is not None and ics[0] <= n < ics[1]
-                if restart and not covers(ics, n, N - self.rr):
-                    raise XErr("E_cp_not_covering")
-                if not self.keep and deps is not None and deps[1] - deps[0] > 1:
-                    raise XErr("E_deps_many")
-            elif dst in ("RAM", "DISK"):
-                removed = (k == "M" and src == dst)
-                if n in self.store[dst] and not removed:
-                    raise XErr("E_overwrite")
-                b = self.budget[dst]
-                cur = len(self.store[dst]) - (1 if removed else 0)
-                if b is not None and b < cur + 1:
-                    raise XErr("E_budget_" + dst)
+            st = self.store.get(src, {})
+            if n not in st:
+                return
+            cp = st[n]
             if k == "M":
-                del self.store[src][n]
+                del st[n]
             if src == "DISK":
                 self.disk_reads += 1
             if dst == "WORK":
-                self._put("WORK", n, None, n if restart else None, ics, deps, 0)
-            elif dst in ("RAM", "DISK"):
-                self._put(dst, n, cp, self.fwd, None, None, 0)
+                ics, deps = cp
+                restart = ics is not None and ics[0] <= n < ics[1]
+                self.fwd, self.w_ics, self.w_deps = (n if restart else None), ics, deps
+            else:
+                self._put(dst, n, cp)
         elif k == "EF":
-            if self.seen_endfwd:
-                raise XErr("E_end_fwd_early")
-            if self.fwd is None or self.fwd != N:
-                raise XErr("E_end_fwd_early")
             self.seen_endfwd = True
             self.keys0 = {s: sorted(self.store[s]) for s in ("RAM", "DISK")}
         elif k == "ER":
-            if not self.seen_endfwd:
-                raise XErr("E_before_endfwd")
-            if self.rr != N:
-                raise XErr("E_end_rev_early")
-            if exhausted and (self.store["RAM"] or self.store["DISK"]):
-                raise XErr("E_leftover")
-            if not exhausted and not (sorted(self.store["RAM"]) == self.keys0["RAM"]
-                                      and sorted(self.store["DISK"]) == self.keys0["DISK"]):
-                raise XErr("E_leftover")
             if not exhausted:
                 self.rr = 0
             self.passes += 1
-        else:
-            raise XErr("E_malformed")
 
     def step(self, a, n, r, max_n, exhausted):
         """a: parsed action tuple; n, r, max_n, exhausted: the schedule's attributes read after the action was emitted."""
-        if self.err is None:
-            try:
-                self._exec(a, max_n is not None, exhausted)
+        if self.err is None or self.lenient:
+            failed = [e for ok, e in self._check(a, max_n is not None, exhausted) if not ok]
+            if failed and not self.lenient:
+                self.err = (failed[0], self.count)
+            else:
+                for e in failed:
+                    self.errors.append((e, self.count))
+                self._apply(a, exhausted)
                 bad = None
                 if self.fwd is not None:
                     if max_n is None and self.fwd == self.N:
@@ -176,9 +171,10 @@ class Monitor:
                 if bad is None and not (max_n is None or max_n == self.N):
                     bad = "M_max_n"
                 if bad is not None:
-                    self.err = (bad, self.count)
-            except XErr as e:
-                self.err = (str(e), self.count)
+                    if self.lenient:
+                        self.errors.append((bad, self.count))
+                    else:
+                        self.err = (bad, self.count)
         self.count += 1
 
     def line(self):
